@@ -18,7 +18,11 @@ C12Cases ==
 
 C14Cases == {[kind |-> "c14", rule |-> t, pl |-> lay, sur |-> "plain"] : t \in CodecFeatures, lay \in Layouts}
 C15Cases == {[kind |-> "c15", rule |-> t, pl |-> "multi", sur |-> "plain"] : t \in {"T_plain", "T_int64", "T_enum_custom", "T_nullable", "T_flatten", "T_oneof", "T_unwrap_mapvalue"}}
+\* a definition that breaks a documented rule is a well-formed request too: the answer is then an
+\* error message (or files, where a plugin does not look), never a crash
 C16Cases == {[kind |-> "c16", rule |-> sh, pl |-> par, sur |-> "plain"] : sh \in Shapes, par \in Params}
+            \cup {[kind |-> "msg", rule |-> r, pl |-> "top", sur |-> "plain"] : r \in MessageRules}
+            \cup {[kind |-> "method", rule |-> r, pl |-> "top", sur |-> "plain"] : r \in MethodRules}
 
 C13Cases == {[kind |-> "c13s", rule |-> t, pl |-> "single", sur |-> "plain"] : t \in C13Singles}
             \cup {[kind |-> "c13p", rule |-> pr, pl |-> "pair", sur |-> "plain"] : pr \in C13Pairs}
